@@ -277,6 +277,440 @@ def oracle(chk, n):
             bad("inverse:int:flux_to_magnitude∘magnitude_to_flux", "band %s, whole magnitude %d: round trip gives %r"
                 % (band, mi, astmod.flux_to_magnitude(astmod.magnitude_to_flux(mi, band), band)), band=band, m=mi)
 
+
+    # ------------------------------------------------------------------------------------------------------------------
+    # Round 5 (generator audit): input classes and call histories the blocks above never produce.  Every clause evaluated here
+    # is a clause of the property (inverse pair, composite = composition, scaling, 5 magnitudes, proportionality, single layer,
+    # axis = loop over profiles); only the ARGUMENTS differ: memory layout (Fortran order, strided and negative-stride views whose
+    # gaps hold NaN, read-only arrays), float32 storage, NumPy scalars and 0-d arrays, ranks 4-5, long profiles and stacks that
+    # cross 2^8 / 2^16 (thorough: 2^18) elements, zero-strength layers and a ground layer at h = 0, extreme but finite positive
+    # magnitudes, every band through every entry point, large / non-square / narrow-integer masks, odd and long slope records,
+    # frame-major slope buffers, and REUSE of the caller's arrays (every function is called twice on the same array objects and
+    # interleaved with its siblings; each result is compared with the result on a pristine private copy).
+    MODS = (("atmos_conversions", ac), ("aotools.turbulence", aotools.turbulence), ("aotools", aotools))
+    AST = (("_astronomy", astmod), ("aotools.astronomy", aotools.astronomy), ("aotools", aotools))
+    PAIRS = [("cn2_to_r0", "r0_to_cn2", "cn2"), ("r0_to_cn2", "cn2_to_r0", "r0"), ("r0_to_seeing", "seeing_to_r0", "r0"),
+             ("seeing_to_r0", "r0_to_seeing", "seeing"), ("cn2_to_seeing", "seeing_to_cn2", "cn2"), ("seeing_to_cn2", "cn2_to_seeing", "seeing")]
+    # float32-stored arguments: the functions then compute in single precision (NumPy's promotion rules), so agreement with the
+    # float64 call on the same values can only be asked to single-precision rounding.  Observed worst relative difference on the
+    # unchanged tree (seeds 0..11 quick, twice with different generator streams, + thorough seed 0; every float32 case of this
+    # block — converters and their round trips, profile integrals, r0_from_slopes, masks / NumPy-float32 magnitudes, pixel scales
+    # and exposures): 1.35e-6 (quick runs: 0.9e-6 .. 1.35e-6, thorough 1.28e-6).  F32 = 1e-4 is 74 x that, and still 100 x below
+    # the smallest effect a wrong constant, exponent or axis has.
+    F32 = 1e-4
+    LAYOUTS = ["C", "F", "strided", "negstride", "readonly", "strided-first"]
+    worst = {"f32": 0.0, "f64-variant": 0.0}
+
+    def relayout(a, kind):
+        """the same VALUES in another memory layout; the gaps of strided views hold NaN (integers: a large sentinel), so code that
+        walks the underlying buffer instead of the array reads garbage"""
+        a = numpy.array(a)
+        if a.ndim == 0 or kind == "C":
+            return a.copy()
+        if kind == "F":
+            return numpy.asfortranarray(a)
+        fill = numpy.nan if a.dtype.kind == "f" else 77
+        if kind == "strided":
+            big = numpy.full(a.shape[:-1] + (2 * a.shape[-1] + 1,), fill, dtype=a.dtype)
+            big[..., 1::2] = a
+            return big[..., 1::2]
+        if kind == "strided-first":
+            big = numpy.full((3 * a.shape[0],) + a.shape[1:], fill, dtype=a.dtype)
+            big[::3] = a
+            return big[::3]
+        if kind == "negstride":
+            return a[..., ::-1].copy()[..., ::-1]
+        if kind == "readonly":
+            b = a.copy()
+            b.setflags(write=False)
+            return b
+        raise ValueError(kind)
+
+    def reldiff(a, b):
+        """largest relative difference (inf for a shape mismatch or a non-finite entry of `a`)"""
+        a, b = numpy.asarray(a, dtype=float), numpy.asarray(b, dtype=float)
+        if a.shape != b.shape or not numpy.all(numpy.isfinite(a)):
+            return float("inf")
+        if a.size == 0:
+            return 0.0
+        return float(numpy.max(numpy.abs(a - b) / numpy.maximum(numpy.maximum(numpy.abs(a), numpy.abs(b)), 1e-300)))
+
+    def agree(a, b, f32):
+        d = reldiff(a, b)
+        k = "f32" if f32 else "f64-variant"
+        if d != float("inf"):
+            worst[k] = max(worst[k], d)
+        return d <= (F32 if f32 else RT)
+
+    def lib(key, fn, *a, **k):
+        """call into the library; an exception on an in-domain argument is a failure of the property at that input"""
+        try:
+            with numpy.errstate(all="ignore"):
+                return True, fn(*a, **k)
+        except Exception as ex:     # noqa: BLE001
+            bad(key, "%s raised %s: %s on an in-domain argument (%s)" % (getattr(fn, "__name__", "call"), type(ex).__name__, ex,
+                ", ".join("%s %s%s" % (type(x).__name__, getattr(x, "dtype", ""), getattr(x, "shape", "")) for x in a)),
+                fn=getattr(fn, "__name__", "call"), error=str(ex))
+            return False, None
+
+    def describe(x):
+        x = numpy.asarray(x)
+        return x.tolist() if x.size <= 64 else {"shape": list(x.shape), "first": x.ravel()[:8].tolist()}
+
+    def bands_everywhere():
+        """every one of the twelve bands, through every entry point: both round trips (also at magnitude exactly 0, as an int and
+        as a float), 5 magnitudes = factor 100 in the flux AND in the photon counts, and the composite photons_per_band =
+        magnitude_to_flux x exposure time x collecting area"""
+        mask = numpy.ones((3, 5))
+        mask[1, 1:3] = 0
+        for band in BANDS:
+            for modname, A in AST:
+                chk.count("bands-exhaustive")
+                m, f0 = rng.uniform(-2, 25), logu(rng, 1e-3, 1e12)
+                px, t = logu(rng, 1e-3, 1.), logu(rng, 1e-4, 100)
+                for mm in (0, 0.0, m):
+                    ok, back = lib("inverse:flux_to_magnitude∘magnitude_to_flux", lambda: A.flux_to_magnitude(A.magnitude_to_flux(mm, band), band))
+                    if ok and not abs(back - mm) <= 1e-9 * max(1, abs(mm)):
+                        bad("inverse:flux_to_magnitude∘magnitude_to_flux", "%s, band %s, m=%r: round trip gives %r" % (modname, band, mm, back),
+                            band=band, m=mm, via=modname)
+                ok, back = lib("inverse:magnitude_to_flux∘flux_to_magnitude", lambda: A.magnitude_to_flux(A.flux_to_magnitude(f0, band), band))
+                if ok and not rel(back, f0):
+                    bad("inverse:magnitude_to_flux∘flux_to_magnitude", "%s, band %s, flux=%r: round trip gives %r" % (modname, band, f0, back),
+                        band=band, flux=f0, via=modname)
+                ok, fl = lib("five-magnitudes", lambda: (A.magnitude_to_flux(m, band), A.magnitude_to_flux(m + 5, band)))
+                if ok and not rel(fl[0], 100 * fl[1]):
+                    bad("five-magnitudes", "5 magnitudes are not a factor 100 in band %s at m=%r (%s)" % (band, m, modname), band=band, m=m)
+                ok, ph = lib("composite:photons_per_band", lambda: (A.photons_per_band(m, mask, px, t, band),
+                                                                      A.photons_per_band(m + 5, mask, px, t, band)))
+                if ok:
+                    want = A.magnitude_to_flux(m, band) * t * (13.0 * px ** 2)
+                    if not rel(ph[0], want):
+                        bad("composite:photons_per_band", "photons_per_band(m, mask, px, t, %r) = %r is not magnitude_to_flux(m, %r) x t x area "
+                            "= %r (13 open pixels of %r m, t=%r, m=%r; %s)" % (band, ph[0], band, want, px, t, m, modname),
+                            band=band, m=m, px=px, t=t, via=modname)
+                    if not rel(ph[0], 100 * ph[1]):
+                        bad("five-magnitudes:photons_per_band", "photons_per_band: 5 magnitudes are not a factor 100 in band %s at m=%r "
+                            "(%r vs %r)" % (band, m, ph[0], ph[1]), band=band, m=m, px=px, t=t)
+        m, px, t = rng.uniform(-2, 25), logu(rng, 1e-3, 1.), logu(rng, 1e-4, 100)
+        ok, ph = lib("five-magnitudes:photons_per_mag", lambda: (astmod.photons_per_mag(m, mask, px, 100., t), astmod.photons_per_mag(m + 5, mask, px, 100., t)))
+        if ok and not rel(ph[0], 100 * ph[1]):
+            bad("five-magnitudes:photons_per_mag", "photons_per_mag: 5 magnitudes are not a factor 100 at m=%r (%r vs %r)" % (m, ph[0], ph[1]),
+                m=m, px=px, t=t)
+
+    def extreme_magnitudes(it):
+        """the quantifier is 'all positive r0, Cn2, seeing, wavelengths; all magnitudes': the same scalar clauses far outside the
+        everyday ranges (X-ray to radio wavelengths, r0 from 0.1 mm to 10 km, Cn2 over twenty decades, magnitudes -30 .. 40, scale
+        factors 1e-3 .. 1e3).  Everything stays far from overflow (largest intermediate ~1e40)."""
+        cn2, lam, r0, s = logu(rng, 1e-25, 1e-5), logu(rng, 1e-8, 1.0), logu(rng, 1e-4, 1e4), logu(rng, 1e-4, 1e4)
+        c = logu(rng, 1e-3, 1e3)
+        chk.count("extreme-magnitudes")
+        _, mod = MODS[it % 3]
+        X = {"cn2": cn2, "r0": r0, "seeing": s}
+        for f, g, k in PAIRS:
+            ok, y = lib("inverse:%s∘%s:extreme-magnitude" % (g, f), lambda: getattr(mod, g)(getattr(mod, f)(X[k], lam), lam))
+            if ok and not rel(y, X[k]):
+                bad("inverse:%s∘%s:extreme-magnitude" % (g, f), "%s(%s(x,λ),λ)=%r ≠ x=%r (λ=%r)" % (g, f, y, X[k], lam), f=f, g=g, x=X[k], lamda=lam)
+        if not rel(mod.cn2_to_seeing(cn2, lam), mod.r0_to_seeing(mod.cn2_to_r0(cn2, lam), lam)):
+            bad("composite:cn2_to_seeing:extreme-magnitude", "cn2_to_seeing ≠ r0_to_seeing∘cn2_to_r0 at cn2=%r λ=%r" % (cn2, lam), cn2=cn2, lamda=lam)
+        if not rel(mod.seeing_to_cn2(s, lam), mod.r0_to_cn2(mod.seeing_to_r0(s, lam), lam)):
+            bad("composite:seeing_to_cn2:extreme-magnitude", "seeing_to_cn2 ≠ r0_to_cn2∘seeing_to_r0 at s=%r λ=%r" % (s, lam), seeing=s, lamda=lam)
+        if not rel(mod.cn2_to_r0(cn2, c * lam), c ** 1.2 * mod.cn2_to_r0(cn2, lam)):
+            bad("scale:r0~lambda^6/5:extreme-magnitude", "r0 does not scale as λ^(6/5) at cn2=%r λ=%r c=%r" % (cn2, lam, c), cn2=cn2, lamda=lam, c=c)
+        if not rel(mod.cn2_to_r0(c * cn2, lam), c ** -0.6 * mod.cn2_to_r0(cn2, lam)):
+            bad("scale:r0~cn2^-3/5:extreme-magnitude", "r0 does not scale as Cn2^(-3/5) at cn2=%r λ=%r c=%r" % (cn2, lam, c), cn2=cn2, lamda=lam, c=c)
+        if not rel(mod.cn2_to_seeing(cn2, c * lam), c ** -0.2 * mod.cn2_to_seeing(cn2, lam)):
+            bad("scale:seeing~lambda^-1/5:extreme-magnitude", "seeing does not scale as λ^(-1/5) at cn2=%r λ=%r c=%r" % (cn2, lam, c),
+                cn2=cn2, lamda=lam, c=c)
+        d = logu(rng, 1e-3, 50.)
+        v = mod.slope_variance_from_r0(r0, lam, d)
+        sl = math.sqrt(v) * numpy.broadcast_to(numpy.array([1.0, -1.0, -1.0, 1.0]), (2, 2, 4)).copy()
+        ok, got = lib("inverse:r0_from_slopes∘slope_variance_from_r0:extreme-magnitude", mod.r0_from_slopes, sl, lam, d)
+        if ok and not abs(got - r0) <= 1e-7 * r0:
+            bad("inverse:r0_from_slopes∘slope_variance_from_r0:extreme-magnitude", "r0_from_slopes(slopes of variance slope_variance_from_r0(r0))"
+                "=%r ≠ r0=%r (λ=%r d=%r)" % (got, r0, lam, d), r0=r0, wavelength=lam, subapDiam=d)
+        # single layer far up / near the ground, storm / calm
+        h, vv = logu(rng, 1.0, 1e5), logu(rng, 0.05, 300.)
+        r0l = mod.cn2_to_r0(cn2, lam)
+        ci = float(mod.isoplanaticAngle(numpy.array([cn2]), numpy.array([h]), lam)) * math.pi / (180 * 3600) * h / r0l
+        ct = float(mod.coherenceTime(numpy.array([cn2]), numpy.array([vv]), lam)) * vv / r0l
+        if not abs(ci - 0.314) <= 0.002:
+            bad("single-layer:isoplanatic:extreme-magnitude", "isoplanaticAngle([cn2],[h])·h/r0 = %r, not 0.314±0.002, at cn2=%r h=%r λ=%r"
+                % (ci, cn2, h, lam), cn2=cn2, h=h, lamda=lam)
+        if not abs(ct - 0.314) <= 0.002:
+            bad("single-layer:coherence:extreme-magnitude", "coherenceTime([cn2],[v])·v/r0 = %r, not 0.314±0.002, at cn2=%r v=%r λ=%r"
+                % (ct, cn2, vv, lam), cn2=cn2, v=vv, lamda=lam)
+        # photometry
+        _, A = AST[it % 3]
+        band, m, f0 = rng.choice(BANDS), rng.uniform(-30, 40), logu(rng, 1e-10, 1e20)
+        back = A.flux_to_magnitude(A.magnitude_to_flux(m, band), band)
+        if not abs(back - m) <= 1e-9 * max(1, abs(m)):
+            bad("inverse:flux_to_magnitude∘magnitude_to_flux:extreme-magnitude", "band %s m=%r round trip gives %r" % (band, m, back), band=band, m=m)
+        if not rel(A.magnitude_to_flux(A.flux_to_magnitude(f0, band), band), f0):
+            bad("inverse:magnitude_to_flux∘flux_to_magnitude:extreme-magnitude", "band %s flux=%r round trip" % (band, f0), band=band, flux=f0)
+        if not rel(A.magnitude_to_flux(m, band), 100 * A.magnitude_to_flux(m + 5, band)):
+            bad("five-magnitudes:extreme-magnitude", "5 magnitudes are not a factor 100 in band %s at m=%r" % (band, m), band=band, m=m)
+        mask = numpy.ones((2, 3))
+        px, t = logu(rng, 1e-5, 100.), logu(rng, 1e-7, 1e6)
+        for fn, args in (("photons_per_band", lambda mk, p_, tt: A.photons_per_band(m, mk, p_, tt, band)),
+                         ("photons_per_mag", lambda mk, p_, tt: A.photons_per_mag(m, mk, p_, 100., tt))):
+            b0 = args(mask, px, t)
+            if not rel(args(mask, px, c * t), c * b0):
+                bad("linear-time:%s:extreme-magnitude" % fn, "%s not proportional to exposure time (m=%r px=%r t=%r c=%r: %r vs %r·%r)"
+                    % (fn, m, px, t, c, args(mask, px, c * t), c, b0), m=m, band=band, px=px, t=t, c=c)
+            if not rel(args(numpy.ones((4, 3)), px, t), 2 * b0):
+                bad("linear-area:%s:extreme-magnitude" % fn, "%s not proportional to collecting area (mask doubled; m=%r px=%r t=%r)"
+                    % (fn, m, px, t), m=m, band=band, px=px, t=t)
+
+    def stack_variants(it, lam):
+        """profile integrals on stacks of rank 2-5 in every memory layout, as float64 or float32, with zero-strength layers and a
+        ground layer at h = 0, the axis as an int / numpy.int64 / negative index — each function called TWICE on the same array
+        objects, interleaved with the other two; every result against the loop over profiles on pristine float64 copies"""
+        nprng = numpy.random.default_rng(rng.getrandbits(32))
+        rank = rng.choice([2, 3, 3, 4, 4, 5])
+        shape = tuple(rng.choice([1, 2, 3, 4, 5]) for _ in range(rank))
+        axis = rng.randrange(rank)
+        f32 = rng.random() < 0.25
+        kc, kx = rng.choice(LAYOUTS), rng.choice(LAYOUTS)
+        dt = "float32" if f32 else "float64"
+        C = (10 ** nprng.uniform(-16, -12, shape)).astype(dt)
+        Xh = (10 ** nprng.uniform(1, 4.3, shape)).astype(dt)
+        Xv = (10 ** nprng.uniform(0, 1.8, shape)).astype(dt)
+        zeros = shape[axis] >= 2 and rng.random() < 0.4
+        if zeros:
+            # layer 0 of every profile keeps cn2 > 0 at h > 0, so every integral stays positive
+            sel = [slice(None)] * rank
+            sel[axis] = slice(1, None)
+            sub = C[tuple(sel)]
+            sub[nprng.random(sub.shape) < 0.4] = 0.0
+            sel[axis] = 1
+            Xh[tuple(sel)] = numpy.where(nprng.random(Xh[tuple(sel)].shape) < 0.5, 0.0, Xh[tuple(sel)])
+            Xv[tuple(sel)] = numpy.where(nprng.random(Xv[tuple(sel)].shape) < 0.3, 0.0, Xv[tuple(sel)])
+        ax = rng.choice([axis, axis - rank, numpy.int64(axis), numpy.int32(axis - rank)])
+        chk.count("stack-variant:rank%d" % rank)
+        chk.count("stack-variant:cn2-layout=" + kc)
+        chk.count("stack-variant:" + dt)
+        C0, H0, V0 = C.astype(float), Xh.astype(float), Xv.astype(float)
+        Cv, Hv, Vv = relayout(C, kc), relayout(Xh, kx), relayout(Xv, kx)
+        modname, mod = MODS[it % 3]
+        ref = {}
+        Cm = numpy.moveaxis(C0, axis, -1)
+        for name, X0 in (("isoplanaticAngle", H0), ("coherenceTime", V0), ("rytov_variance", H0)):
+            Xm = numpy.moveaxis(X0, axis, -1)
+            loop = numpy.empty(Cm.shape[:-1])
+            for idx in numpy.ndindex(*Cm.shape[:-1]):
+                loop[idx] = getattr(ac, name)(Cm[idx].copy(), Xm[idx].copy(), lam)
+            ref[name] = loop
+        order = ["isoplanaticAngle", "coherenceTime", "rytov_variance"] * 2
+        rng.shuffle(order)
+        done = []
+        for name in order:
+            Xarg = Vv if name == "coherenceTime" else Hv
+            key = "axis:%s:%s" % (name, "float32" if f32 else "layout")
+            ok, got = lib(key, getattr(mod, name), Cv, Xarg, lam, axis=ax)
+            done.append(name)
+            if not ok:
+                break
+            if not agree(got, ref[name], f32):
+                touched = not (numpy.array_equal(Cv, C) and numpy.array_equal(Hv, Xh) and numpy.array_equal(Vv, Xv))
+                if touched:
+                    key = "reuse:%s:caller-arrays-changed" % name
+                bad(key, "%s.%s with axis=%r on cn2 %s (%s, %s) / x (%s)%s differs from looping over the profiles: max relative difference %.3g%s"
+                    % (modname, name, ax, shape, dt, kc, kx, ", zero layers" if zeros else "", reldiff(got, ref[name]),
+                       "; the caller's arrays were modified by the earlier calls %s" % done[:-1] if touched else ""),
+                    fn=name, shape=shape, axis=int(ax), dtype=dt, layout_cn2=kc, layout_x=kx, cn2=describe(C0), h=describe(H0), v=describe(V0),
+                    lamda=lam, calls=list(done))
+                break
+
+    def long_profiles(lam, big):
+        """sizes that cross 2^8 / 2^16 (thorough 2^18) elements: (a) a stack = the loop over its profiles, (b) one turbulent layer
+        among N-1 layers of zero strength IS a single layer: 0.314 r0/h, 0.314 r0/v, and the value of the one-element call"""
+        nprng = numpy.random.default_rng(rng.getrandbits(32))
+        for shape, axis in (((3, 300), 1), ((300, 3), 0), ((70, 1000), 1)) + ((((600, 500), 1),) if big else ()):
+            chk.count("long:stack %dx%d" % shape)
+            C = 10 ** nprng.uniform(-16, -12, shape)
+            H = 10 ** nprng.uniform(1, 4.3, shape)
+            V = 10 ** nprng.uniform(0, 1.8, shape)
+            for name, X in (("isoplanaticAngle", H), ("coherenceTime", V), ("rytov_variance", H)):
+                fn = getattr(ac, name)
+                Cm, Xm = numpy.moveaxis(C, axis, -1), numpy.moveaxis(X, axis, -1)
+                loop = numpy.array([fn(Cm[i].copy(), Xm[i].copy(), lam) for i in range(Cm.shape[0])])
+                ok, got = lib("axis:%s:large" % name, fn, C, X, lam, axis=axis)
+                if ok and not agree(got, loop, False):
+                    bad("axis:%s:large" % name, "%s on a %s stack (axis=%d) differs from looping over its %d profiles: max relative difference "
+                        "%.3g" % (name, shape, axis, Cm.shape[0], reldiff(got, loop)), fn=name, shape=shape, axis=axis, lamda=lam,
+                        numpy_seed="see replay seed")
+        for N in (257, 5000, 70000) + ((300000,) if big else ()):
+            chk.count("long:one turbulent layer of %d" % N)
+            j = rng.randrange(N)
+            cn2, h, v = logu(rng, 1e-16, 1e-11), logu(rng, 10, 2e4), logu(rng, 1, 60)
+            C = numpy.zeros(N)
+            C[j] = cn2
+            H = numpy.sort(10 ** nprng.uniform(1, 4.3, N))
+            V = 10 ** nprng.uniform(0, 1.8, N)
+            H[j], V[j] = h, v
+            r0l = ac.cn2_to_r0(cn2, lam)
+            for name, X, x, unit in (("isoplanaticAngle", H, h, math.pi / (180 * 3600)), ("coherenceTime", V, v, 1.0), ("rytov_variance", H, h, None)):
+                fn = getattr(ac, name)
+                ok, got = lib("single-layer:%s:long-profile" % name, fn, C, X, lam)
+                if not ok:
+                    continue
+                one = float(fn(numpy.array([cn2]), numpy.array([x]), lam))
+                if not rel(float(got), one):
+                    bad("single-layer:%s:long-profile" % name, "%s of a %d-layer profile whose only turbulent layer is layer %d (cn2=%r at %r) "
+                        "= %r, but %r for that layer alone" % (name, N, j, cn2, x, float(got), one), fn=name, N=N, layer=j, cn2=cn2, x=x, lamda=lam)
+                elif unit is not None and not abs(float(got) * unit * x / r0l - 0.314) <= 0.002:
+                    bad("single-layer:%s:long-profile" % name, "%s·x/r0 = %r, not 0.314±0.002, for a %d-layer profile with one turbulent layer"
+                        % (name, float(got) * unit * x / r0l, N), fn=name, N=N, layer=j, cn2=cn2, x=x, lamda=lam)
+
+    def converter_variants(it, lam, big):
+        """the six converters on arrays of every layout / float32 / odd, prime and large sizes, on 0-d arrays and NumPy scalars: value
+        of the scalar float call, inverse pair, and the SECOND call on the same array object gives what the first gave"""
+        nprng = numpy.random.default_rng(rng.getrandbits(32))
+        shape = rng.choice([(1,), (2,), (3,), (5,), (7,), (17,), (257,), (3, 5), (5, 2), (2, 3, 4), (1, 1, 3), ()])
+        if big:
+            shape = (70001,) if chk.tier == "quick" else rng.choice([(70001,), (263000,), (300, 301)])
+        f32 = rng.random() < 0.3
+        dt = "float32" if f32 else "float64"
+        kind = rng.choice(LAYOUTS)
+        modname, mod = MODS[it % 3]
+        lamv = lam
+        if shape and rng.random() < 0.3:
+            lamv = relayout((10 ** nprng.uniform(-6.5, -5, shape)).astype(dt), rng.choice(LAYOUTS))
+        chk.count("converter-variant:" + ("0-d" if not shape else "rank%d" % len(shape)))
+        chk.count("converter-variant:" + dt)
+        chk.count("converter-variant:layout=" + kind)
+        X = {"cn2": 10 ** nprng.uniform(-16, -11, shape), "r0": 10 ** nprng.uniform(-2, 0.3, shape), "seeing": 10 ** nprng.uniform(-1, 0.7, shape)}
+        lam0 = numpy.asarray(lamv, dtype=float)
+        for f, g, k in PAIRS:
+            x = numpy.asarray(X[k]).astype(dt)
+            x0 = x.astype(float)
+            xv = relayout(x, kind)
+            if not shape and rng.random() < 0.5:
+                xv = x[()]                       # a NumPy scalar (numpy.float64 / numpy.float32) instead of a 0-d array
+            key = "array:%s:%s" % (f, "float32" if f32 else "layout")
+            want = getattr(ac, f)(x0.copy(), lam0.copy() if lam0.ndim else float(lam0))
+            ok, y1 = lib(key, getattr(mod, f), xv, lamv)
+            if not ok:
+                continue
+            ok, y2 = lib(key, getattr(mod, f), xv, lamv)
+            if not ok:
+                continue
+            what = "%s.%s on a %s %s array of shape %s (%s)" % (modname, f, dt, kind, shape, type(xv).__name__)
+            if not agree(y1, want, f32 or numpy.asarray(lamv).dtype == numpy.float32):
+                bad(key, "%s differs from the call on a contiguous float64 copy: max relative difference %.3g" % (what, reldiff(y1, want)),
+                    f=f, x=describe(x0), lamda=describe(lam0), dtype=dt, layout=kind)
+            elif not agree(y2, want, f32 or numpy.asarray(lamv).dtype == numpy.float32):
+                bad("reuse:%s:second-call-differs" % f, "%s: the SECOND call on the same array object differs from the first (max relative "
+                    "difference %.3g); the caller's array %s" % (what, reldiff(y2, want), "was modified" if not numpy.array_equal(xv, x) else "is unchanged"),
+                    f=f, x=describe(x0), lamda=describe(lam0), dtype=dt, layout=kind)
+            else:
+                ok, back = lib("inverse:array:%s∘%s" % (g, f), getattr(mod, g), y2, lamv)
+                if ok and not agree(back, x0, f32 or numpy.asarray(lamv).dtype == numpy.float32):
+                    bad("inverse:array:%s∘%s" % (g, f), "%s then %s does not give the argument back (max relative difference %.3g)"
+                        % (what, g, reldiff(back, x0)), f=f, g=g, x=describe(x0), lamda=describe(lam0), dtype=dt, layout=kind)
+
+    def slopes_variants(it, lam, r0):
+        """r0_from_slopes on records of odd / long length, many sub-apertures, frame-major buffers (slopes logged as
+        (nFrames, nSubaps, 2) and handed over as a transposed view), float32 storage, integer sub-aperture size, static offsets;
+        called twice on the same array"""
+        nprng = numpy.random.default_rng(rng.getrandbits(32))
+        nfr = rng.choice([3, 5, 7, 33, 101, 1000, 4097] if it % 10 else [20011])
+        nsub = rng.choice([1, 2, 3, 7, 36, 97] if nfr < 5000 else [12])
+        d = rng.choice([logu(rng, .05, 2.), 1, 2, numpy.float32(0.5)])
+        f32 = rng.random() < 0.25
+        modname, mod = MODS[it % 3]
+        v = ac.slope_variance_from_r0(r0, lam, float(d))
+        x = nprng.standard_normal((2, nsub, nfr))
+        x -= x.mean(-1, keepdims=True)
+        x /= x.std(-1, keepdims=True)                 # population variance 1 (to rounding) in every sub-aperture
+        offs = rng.choice(["none", "common", "per-subap"])
+        if offs == "common":
+            x += 3.7
+        elif offs == "per-subap":
+            x += nprng.uniform(-5, 5, (2, nsub, 1))
+        sl = math.sqrt(v) * x
+        lay = rng.choice(["C", "frame-major", "F", "strided", "readonly"])
+        if f32:
+            sl = sl.astype("float32")
+        if lay == "frame-major":
+            slv = numpy.moveaxis(numpy.ascontiguousarray(numpy.moveaxis(sl, -1, 0)), 0, -1)     # buffer (nFrames, 2, nSubaps), viewed as asked
+        else:
+            slv = relayout(sl, lay)
+        chk.count("slopes-variant:nframes=%s" % ("odd<100" if nfr < 100 else ">=100"))
+        chk.count("slopes-variant:layout=" + lay)
+        chk.count("slopes-variant:" + ("float32" if f32 else "float64"))
+        key = "inverse:r0_from_slopes∘slope_variance_from_r0:%s" % ("float32" if f32 else "record-shape")
+        tol = F32 if f32 else 1e-7
+        keep = slv.copy()
+        for n_call in (1, 2):
+            ok, got = lib(key, mod.r0_from_slopes, slv, lam, d)
+            if not ok:
+                break
+            err = abs(float(got) - r0) / r0
+            if f32:
+                worst["f32"] = max(worst["f32"], err) if err == err else worst["f32"]
+            if not err <= tol:
+                k2 = key if n_call == 1 else "reuse:r0_from_slopes:second-call-differs"
+                bad(k2, "%s.r0_from_slopes (call %d on the same array) on %s %s slopes of shape %s with %s static offsets and exact "
+                    "per-sub-aperture variance slope_variance_from_r0(r0) gives %r ≠ r0 = %r%s" % (modname, n_call, sl.dtype, lay, sl.shape, offs,
+                    float(got), r0, "; the caller's slopes were modified" if not numpy.array_equal(slv, keep) else ""),
+                    r0=r0, wavelength=lam, subapDiam=float(d), nframes=nfr, nsub=nsub, layout=lay, dtype=str(sl.dtype), offsets=offs)
+                break
+
+    def mask_variants(it):
+        """pupil masks as they come: large (more than 255 / 65535 open pixels), non-square, stored as bool / int8 / uint8 / int16 /
+        float32 / a strided view; whole-number or NumPy-scalar pixel scale and exposure; called twice with the same mask.  The
+        count must equal the count for the same mask as float64, and be flux x time x area."""
+        nprng = numpy.random.default_rng(rng.getrandbits(32))
+        ny, nx = rng.choice([(20, 20), (17, 40), (64, 64), (300, 7), (1, 300)] if it % 15 else [(300, 300)])
+        yy, xx = numpy.mgrid[:ny, :nx]
+        m01 = (((yy - ny / 2 + .5) / (ny / 2)) ** 2 + ((xx - nx / 2 + .5) / (nx / 2)) ** 2 <= 1.0) if rng.random() < 0.7 else numpy.ones((ny, nx), bool)
+        m01 = m01.copy()
+        m01[0, 0] = True
+        dtm = rng.choice(["bool", "int8", "uint8", "int16", "uint16", "int32", "int64", "float32", "float64"])
+        lay = rng.choice(["C", "F", "strided", "readonly", "strided-first"])
+        mask = relayout(m01.astype(dtm), lay)
+        nopen = int(m01.sum())
+        px = rng.choice([logu(rng, 1e-3, 1.), 1, 2, numpy.float32(0.125), numpy.float64(0.25)])
+        t = rng.choice([logu(rng, 1e-4, 100), 1, 30, numpy.float32(0.5), numpy.int64(2)])
+        band, m = rng.choice(BANDS), rng.choice([rng.uniform(-2, 25), rng.randint(-2, 25), numpy.float64(rng.uniform(-2, 25)),
+                                                 numpy.float32(rng.randint(0, 40) / 2.0)])
+        modname, A = AST[it % 3]
+        chk.count("mask-variant:dtype=" + dtm)
+        chk.count("mask-variant:open-pixels" + (">65535" if nopen > 65535 else ">255" if nopen > 255 else "<=255"))
+        ref = m01.astype(float)
+        f32 = dtm == "float32" or any(isinstance(z, numpy.float32) for z in (px, t, m))     # then the count is a single-precision number
+        for fn, call in (("photons_per_band", lambda mk: A.photons_per_band(m, mk, px, t, band)),
+                         ("photons_per_mag", lambda mk: A.photons_per_mag(m, mk, px, 100., t))):
+            want = float((astmod.photons_per_band(float(m), ref, float(px), float(t), band) if fn == "photons_per_band"
+                          else astmod.photons_per_mag(float(m), ref, float(px), 100., float(t))))
+            for n_call in (1, 2):
+                ok, got = lib("mask:%s" % fn, call, mask)
+                if not ok:
+                    break
+                if not agree(got, want, f32):
+                    bad("mask:%s" % fn if n_call == 1 else "reuse:%s:second-call-differs" % fn,
+                        "%s.%s (call %d) with a %dx%d %s %s mask of %d open pixels (m=%r, px=%r, t=%r, band %s) = %r, but %r for the same mask "
+                        "as float64" % (modname, fn, n_call, ny, nx, dtm, lay, nopen, m, px, t, band, got, want),
+                        fn=fn, ny=ny, nx=nx, dtype=dtm, layout=lay, open_pixels=nopen, m=float(m), px=float(px), t=float(t), band=band)
+                    break
+            if fn == "photons_per_band":
+                comp = float(astmod.magnitude_to_flux(float(m), band)) * float(t) * (nopen * float(px) ** 2)
+                if not rel(want, comp):
+                    bad("composite:photons_per_band", "photons_per_band(m=%r, %d open pixels of %r m, t=%r, %r) = %r is not magnitude_to_flux x t x "
+                        "area = %r" % (float(m), nopen, float(px), float(t), band, want, comp), band=band, m=float(m), px=float(px), t=float(t), open_pixels=nopen)
+
+    def audit5(it, lam, r0):
+        if it == 0 or (chk.tier != "quick" and it % 100 == 0):
+            bands_everywhere()
+        if it == 1 or (chk.tier != "quick" and it % 250 == 1):
+            long_profiles(lam, chk.tier != "quick" and it % 500 == 1)
+        extreme_magnitudes(it)
+        stack_variants(it, lam)
+        converter_variants(it, lam, it == 2 or (chk.tier != "quick" and it % 200 == 2))
+        slopes_variants(it, lam, r0)
+        mask_variants(it)
+
     for it in range(n):
         chk.oracle_cases += 1
         cn2, lam, r0, s = logu(rng, 1e-16, 1e-11), logu(rng, 3e-7, 1e-5), logu(rng, .01, 2.), logu(rng, .1, 5.)
@@ -371,6 +805,7 @@ def oracle(chk, n):
         defaults(cn2, r0, s, m, band, h, vv, mask, px, t)
         arrays(lam)
         integer_typed(lam, cn2, band)
+        audit5(it, lam, r0)
         # integration axis = loop over profiles, any rank and axis
         rank = rng.randint(1, 3)
         shape = tuple(rng.randint(1, 4) for _ in range(rank))
@@ -404,6 +839,8 @@ def oracle(chk, n):
                 d0 = numpy.asarray(fn(C, H, lam))
                 if d0.shape != loop.shape or not numpy.allclose(d0, loop, rtol=RT, atol=0):
                     bad("axis-default:" + fn.__name__, "%s default axis is not the last axis" % fn.__name__, fn=fn.__name__, shape=shape)
+    chk.notes.append("round-5 variants: worst relative difference from the float64 / contiguous reference — float32-stored arguments "
+                     "%.3g (allowed %g), float64 arguments in other layouts / sizes / entry points %.3g (allowed %g)" % (worst["f32"], F32, worst["f64-variant"], RT))
     chk.notes.append("single layer: worst |iso·h/r0 − 0.314| = %.3g, |tau·v/r0 − 0.314| = %.3g (allowed 0.002; theorem cθ_approx)"
                      % (single["iso"], single["tau"]))
 
@@ -427,7 +864,16 @@ def run(chk):
                        "whole magnitudes / fluxes / arc-seconds / metres, integer and boolean masks; int16..int64, uint16..uint64) are outside "
                        "the model (one scalar type): the oracle demands the value of the float64 call to 1e-9 and the single-layer / axis "
                        "clauses on integer grids",
-                       "r0_from_slopes: the theorem covers its scalar kernel; the variance/mean reduction is exercised by the oracle"]
+                       "r0_from_slopes: the theorem covers its scalar kernel; the variance/mean reduction is exercised by the oracle",
+                       "round 5 (generator audit): memory layout (Fortran order, strided / negative-stride views with NaN in the gaps, read-only), "
+                       "float32 storage (agreement with the float64 call asked to 1e-4 only: NumPy computes in single precision then; observed "
+                       "1.35e-6), NumPy scalars and 0-d arrays, ranks 4-5, stacks / profiles / arrays beyond 2^8, 2^16 (thorough 2^18) elements, "
+                       "zero-strength layers and a ground layer at h = 0, magnitudes far outside the everyday ranges (λ 1e-8..1 m, r0 1e-4..1e4 m, "
+                       "Cn2 1e-25..1e-5, m -30..40), every band through every entry point, large / non-square / narrow-integer masks, odd and "
+                       "long slope records in frame-major buffers, and re-use of the caller's arrays (second call, interleaved siblings) are "
+                       "exercised by the oracle only",
+                       "lists / tuples as profile or slope arguments are NOT generated (`list ** float` raises on the unchanged tree; the "
+                       "docstrings ask for arrays); exposure time 0 and an all-opaque mask are not generated (the quantifier says positive)"]
     meta = t1check.regenerate(chk)
     chk.build_and_audit("AoVerif.Props.C17", "AoVerif.Props.C17", REQUIRED)
     if meta is not None:
